@@ -5,6 +5,7 @@ CONSTANTS
   MaxP = 2
   MinLens = {1, 2}
   OccRates = {0, 3}
+  AllSentinelOrders = TRUE
   T = 2
 SPECIFICATION Spec
 INVARIANTS StrandSymmetry ExtensionLemma FwdInv BwdInv Final MemsFastLemma
